@@ -885,7 +885,7 @@ func parseBinOps(expr string, n *promParser.BinaryExpr) (src []Source) {
 			if s.Operation == "" {
 				s.Operation = n.VectorMatching.Card.String()
 			}
-			if !s.AlwaysReturns || s.IsConditional {
+			if !s.AlwaysReturns || s.IsConditional || s.IsDead {
 				lhsCanBeEmpty = true
 			}
 			for _, rs := range rhs {
@@ -900,7 +900,7 @@ func parseBinOps(expr string, n *promParser.BinaryExpr) (src []Source) {
 				}
 				switch {
 				case n.Op == promParser.LUNLESS:
-					if n.VectorMatching.On && len(n.VectorMatching.MatchingLabels) == 0 && rs.AlwaysReturns && !rs.IsConditional {
+					if n.VectorMatching.On && len(n.VectorMatching.MatchingLabels) == 0 && rs.AlwaysReturns && !rs.IsConditional && !rs.IsDead {
 						s.IsDead = true
 						s.IsDeadReason = "this query will never return anything because the `unless` query always returns something"
 						s.IsDeadPosition = rs.Position
